@@ -41,7 +41,10 @@ fn main() {
     let mut id: u64 = 0;
     for k in 0..ndb {
         let mut r = Rng::new(args.seed, &format!("c06/db/{}", k));
-        let dbdef = gen_db(&mut r, 2, 7);
+        // size strata (vectorized / parallel filter paths start at ~100 rows)
+        let big = k % 8 == 7;
+        let huge = k % 16 == 11;
+        let dbdef = if huge { gen_db_sized(&mut r, 1, 100, 130) } else { gen_db(&mut r, 2, if big { 14 } else { 7 }) };
         let mut db = load_db(&dbdef);
         let mut cases = Vec::new();
         for _ in 0..per_db {
@@ -49,7 +52,7 @@ fn main() {
             let cfg = GenCfg { setops: false, grouping: false, order: false, limit: false, distinct: false, ..GenCfg::default() };
             let (from, tys, w, p, proj, ptys) = {
                 let mut g = Gen { r: &mut r, db: &dbdef, cfg };
-                let (from, tys) = g.from_list(&[], 1, 2);
+                let (from, tys) = g.from_list(&[], if huge { 0 } else { 1 }, if huge { 1 } else { 2 });
                 let scopes = vec![tys.clone()];
                 let w = if g.r.chance(1, 2) { Some(g.expr(Ty::Bool, &scopes, 1)) } else { None };
                 let pd = 1 + g.r.below(2) as usize;
